@@ -273,6 +273,10 @@ def sym_paths(fi, tracked, bits=(), consts=None, rename=None, limit=400):
     polynomials; `bits`: {chain: atom} fields handled as shift/or op lists;
     `consts`: {chain: atom} fields read but (required) never written."""
     cfg = cfg_of(fi)
+    for n in walk_no_nested(fi.node):
+        # handler bodies are reached along exceptional edges only, which this walk does not follow: fail closed
+        if isinstance(n, (ast.Try, ast.While, ast.For, ast.AsyncFor, ast.Match)) or (hasattr(ast, "TryStar") and isinstance(n, ast.TryStar)):
+            raise AnalysisError("%s contains a %s statement; the rule interprets only straight-line/branching code here" % (fi.short, type(n).__name__.lower()))
     rename = dict(rename or {})
     bits = dict(bits or {})
     consts = dict(consts or {})
